@@ -4,4 +4,4 @@ cd "$(dirname "$0")/.."
 TIER=${1:-quick}
 mkdir -p /tmp/gtirbverif-logs
 ls_props() { python3 -c "import json; print(' '.join(c['property_id'] for c in json.load(open('MANIFEST.json'))['checks']))"; }
-echo $(ls_props) | tr ' ' '\n' | xargs -P 3 -I{} sh -c './check {} --tier '"$TIER"' > /tmp/gtirbverif-logs/{}.'"$TIER"'.log 2>&1; echo "{} exit $?"'
+echo $(ls_props) | tr ' ' '\n' | xargs -P ${VERIF_LANES:-3} -I{} sh -c './check {} --tier '"$TIER"' > /tmp/gtirbverif-logs/{}.'"$TIER"'.log 2>&1; echo "{} exit $?"'
